@@ -634,14 +634,25 @@ pub fn plan(prop: &str, tier: &str) -> Option<Plan> {
                     })
                     .collect()
             };
+            // recurring faults: after the first Hash panic the next 64 key-adding calls panic again in the
+            // first element they relocate (a poisoned element at the head of the old table)
+            let mk_refault = |hk: u8, n: usize, fam: usize, parts: usize, secs: f64| -> Vec<ShardSpec> {
+                let mut v = mk(hk, n, fam, parts, "chk", false, secs);
+                for x in v.iter_mut() {
+                    x.alpha = "mut1+ch0".into();
+                    x.extra.insert("refault".into(), "1".into());
+                }
+                v
+            };
             if q {
+                s.extend(mk_refault(H_GOOD, 64, 80, 4, 45.0));
                 s.extend(mk(H_GOOD, 64, 160, 6, "chk", false, 45.0));
                 s.extend(mk(H_LOW, 33, 48, 3, "chk", false, 45.0));
                 s.extend(mk(H_CONST, 20, 24, 1, "chk", false, 45.0));
                 s.extend(mk(H_GOOD, 33, 20, 6, "asan", false, 45.0));
                 s.extend(mk(H_TAG, 10, 6, 3, "asan", false, 45.0));
                 s.extend(mk(H_GOOD, 12, 12, 1, "chk", true, 45.0));
-                bounds = json!({"E4": "family: growth path to N=64 + states directly after one shaping deviation (<=160 states, chk; N=33, <=24 states asan); every op of the C01-style alphabet (class keys) x every callback kind x every crash point; post-fault oracle, a tour of 12 calls, the growth path across the next resize, shrink/clone/drain; per-call continuations for N<=12"});
+                bounds = json!({"recurring": "after every Hash fault of a key-adding call (<=80 states to N=64): 64 further inserts each panicking again in the first element it relocates, every one judged, then the normal continuation", "E4": "family: growth path to N=64 + states directly after one shaping deviation (<=160 states, chk; N=33, <=24 states asan); every op of the C01-style alphabet (class keys) x every callback kind x every crash point; post-fault oracle, a tour of 12 calls, the growth path across the next resize, shrink/clone/drain; per-call continuations for N<=12"});
             } else {
                 for &hk in &HS4 {
                     s.extend(mk(hk, 64, 240, 8, "chk", false, 900.0));
@@ -652,7 +663,10 @@ pub fn plan(prop: &str, tier: &str) -> Option<Plan> {
                 s.extend(mk(H_TAG, 16, 16, 4, "asan", false, 900.0));
                 s.extend(mk(H_GOOD, 33, 48, 8, "chk", true, 900.0));
                 s.extend(mk(H_GOOD, 130, 160, 8, "chk", false, 900.0));
-                bounds = json!({"E4": "family: growth path to N=64/130 + post-deviation states (<=240 states chk x 4 hashers, <=64 asan x 2 hashers); every op x every callback kind x every crash point; per-call continuations on <=48 states"});
+                for &hk in &HS4 {
+                    s.extend(mk_refault(hk, 130, 200, 4, 900.0));
+                }
+                bounds = json!({"recurring": "after every Hash fault of a key-adding call: 64 further inserts each panicking again in the first element it relocates, every one judged, then the normal continuation", "E4": "family: growth path to N=64/130 + post-deviation states (<=240 states chk x 4 hashers, <=64 asan x 2 hashers); every op x every callback kind x every crash point; per-call continuations on <=48 states"});
             }
         }
         "C11" => {
